@@ -209,6 +209,49 @@ def run(ctx: Ctx) -> int:
                            "rsv": o["rsv"] if o["conformant"] else "*", "cause": cause},
                           f"{v}: input {o['op']} of {o['base']} ({o['n']} bytes, reserved={o['rsv']}, protocol version={o['pv']}): first FSM events={o['events']} allowed={o['allowed']} "
                           f"escaped={o['exc']} hung={o['hung']} decoded={o['decoded']} stable={o['stable']} accepted_equal={o['accepted_equal']} answer type={o['answer']}", o)
+    # ---- conformant P-DATA-TF lengths (PdataLimit.tla): bounded by the RECEIVER's own Maximum Length, in both roles ----
+    import re as _re
+    from tlc import _P
+    rl = must_ok(run_tlc("PdataLimit", "PdataLimit.cfg", workdir=ctx.work, workers=1, timeout=600))
+    ctx.add_tlc(rl)
+    if rl.violated:
+        ctx.violation({"clause": "model", "what": rl.violated}, f"PdataLimit.tla violates {rl.violated}", {})
+    lcases = []
+    for m in _re.finditer(r'<<\s*"CASE",', rl.out):
+        p = _P(rl.out)
+        p.i = m.start()
+        lcases.append(p.value()[1])
+    if len(lcases) < 40:
+        raise MachineryError(f"only {len(lcases)} P-DATA length cases")
+    from limit_pdu_lab import run_case as run_limit
+    lobs, llock = [], threading.Lock()
+
+    def lworker(k):
+        for c in lcases[k::8]:
+            try:
+                o = run_limit(c)
+            except Exception as e:  # noqa: BLE001
+                o = dict(c, harness_exc=f"{type(e).__name__}: {e}")
+            with llock:
+                lobs.append(o)
+    lts = [threading.Thread(target=lworker, args=(k,)) for k in range(8)]
+    [t.start() for t in lts]
+    [t.join() for t in lts]
+    lbad = [o for o in lobs if "harness_exc" in o]
+    if len(lbad) > 2:
+        raise MachineryError(f"{len(lbad)} P-DATA length cases failed in the harness: {lbad[0]['harness_exc']}")
+    lobs = [o for o in lobs if "harness_exc" not in o]
+    lv = validate_traces(ctx, "Trace_PdataLimit", [{"id": j + 1, "own": o["own"], "maxlen": o["maxlen"], "accepted": o["accepted"]} for j, o in enumerate(lobs)], name="pdatalimit")
+    for j, o in enumerate(lobs):
+        v = lv[j + 1][0]
+        ctx.traces += 1
+        ctx.case(("pdata-length", o["role"], o["own"], o["peer"], o["len"]), nontrivial=o["len"] != 512)
+        if v == "NOT_CONFORMANT_CASE":
+            ctx.drifted(f"P-DATA length case {o} is not conformant as sent (largest PDU {o['maxlen']})")
+        elif v != "ok":
+            ctx.violation({"clause": v, "base": "pdata-length", "op": o["role"], "pv": "*", "rsv": "*", "cause": "*"},
+                          f"{v}: {o['role']} announcing Maximum Length {o['own']} (peer announced {o['peer']}) received a message whose largest P-DATA-TF has a variable field of "
+                          f"{o['maxlen']} bytes - conformant - and did not accept it: {o['note']}", o)
     ctx.sample(obs[0])
     ctx.sample(obs[-1])
     ctx.assume("inputs reach the provider over TCP loopback followed by end-of-stream; A-ASSOCIATE-RQ based inputs arrive in Sta2, the others in Sta6",
